@@ -33,6 +33,17 @@ def spreadPoint (ps ls logs : List α) (p lq lgLast : α) : Option α :=
     else some (spreadBody ps ls logs k l0 + seg (ps.getD (k - 1) 0) (ls.getD (k - 1) 0) p lq lgLast)
   | _, _ => none
 
+/-- the guard added to `spreading_pressure_at`: a first data point at the origin `(0, 0)` is dropped (it is the origin of
+Henry's law itself; with it the Henry constant would be `0/0`) -/
+def dropOrigin : List α → List α → List α × List α
+  | p0 :: p1 :: ps, l0 :: l1 :: ls => if p0 = 0 ∧ l0 = 0 then (p1 :: ps, l1 :: ls) else (p0 :: p1 :: ps, l0 :: l1 :: ls)
+  | ps, ls => (ps, ls)
+
+/-- `spreading_pressure_at` on the branch data as stored (origin guard, then the fold) -/
+def spreadPointData (ps ls logs : List α) (p lq lgLast : α) : Option α :=
+  let d := dropOrigin ps ls
+  spreadPoint d.1 d.2 logs p lq lgLast
+
 /-- linear interpolation through the knots at `x` (value on the segment that contains `x`;
 `none` outside the measured range) — `scipy.interpolate.interp1d(kind='linear')` without fill -/
 def interpLin : List α → List α → α → Option α
